@@ -324,7 +324,8 @@ class ForkBackend(object):
         env["RPYC_REPO"] = os.environ.get("RPYC_REPO", "/repo")
         self.proc = subprocess.Popen([sys.executable, os.path.abspath(__file__), "--forking-child", transport, path,
                                       "T" if auth else "F", self.hookfile], stdin=subprocess.PIPE,
-                                     stdout=subprocess.PIPE, stderr=subprocess.DEVNULL, env=env, text=True)
+                                     stdout=subprocess.PIPE, stderr=subprocess.DEVNULL, env=env, text=True,
+                                     start_new_session=True)     # its own process group: children die with it
         info = self._read()
         if not isinstance(info, dict) or "error" in info:
             raise Infra("forking server did not start: %r" % (info,))
@@ -387,8 +388,12 @@ class ForkBackend(object):
             self.proc.wait(3)
         except Exception:  # noqa
             self.proc.kill()
-        # children of the forking server that are still serving (they are in its process group = ours; find by ppid 1
-        # is not possible reliably) are told to go by closing their client sockets, which Session.close() does first
+        # children of the forking server normally go when their client sockets close (Session.close() did that first);
+        # whatever is left of the helper's process group is killed
+        try:
+            os.killpg(self.pid, signal.SIGKILL)
+        except (ProcessLookupError, PermissionError, OSError):
+            pass
         for f in (self.proc.stdin, self.proc.stdout):
             try:
                 f.close()
